@@ -2,6 +2,7 @@ import OnlVerif.Kernel.Replay
 import OnlVerif.Net.FifoReplay
 import OnlVerif.Net.GenSinkReplay
 import OnlVerif.Util.TimerReplay
+import OnlVerif.Net.StampReplay
 import OnlVerif.Util.RtReplay
 /-! Line-protocol driver: `driver <mode>` reads cases on stdin and prints the model's observations. -/
 
@@ -12,5 +13,6 @@ def main (args : List String) : IO UInt32 := do
   | ["fifo"] => fifoLoop stdin; return 0
   | ["gensink"] => gensinkLoop stdin; return 0
   | ["timer"] => timerLoop stdin none; return 0
+  | ["stamp"] => stampLoop stdin; return 0
   | ["rt"] => rtLoop stdin {}; return 0
   | _ => IO.eprintln "usage: driver <kernel|fifo|gensink|timer|rt|…>"; return 2
